@@ -54,6 +54,7 @@ Property clause → theorem
                                                                             rate-update sweeps reach the locker), `savings_time_budget_from_any_state`
   the restriction is necessary — the code credits a zero-rate window to a locker touched in it
                                                                           → `zero_rate_window_touched_counterexample` (reproduced, D35)
+  with the three-line repair of D35 the statement holds for ALL histories → `savings_only_for_time_at_positive_rate_repaired`
 * what each accruing call books: `interest` over [clock, now] at the rate in force (old rate for a rate update)
                                                                           → `locker_calc_books_interest`, `locker_move_books_interest`,
                                                                             `rate_change_restarts_clock`
@@ -604,6 +605,16 @@ theorem accrual_subadditive_across_rate_change (ops : FloatOps) (s s1 : St) (l l
     rw [c2', c']
   exact ⟨s2, s', e2, e', hcoll, a2, a3, two_le_one ops s s1 l l1' c1 c2.now _ _ hv hne hn63 hh h12 e1 k1 b2 b'⟩
 
+/-- **With the repair of D35** (deposit / withdraw write `BlockHeight = 0` while the rate is zero, as create does — the three-line
+patch in notes/C18.md, `LockerAccrual.stepFix`) **the time budget holds at full strength**: for EVERY history (no restriction on
+deposits and withdrawals), every rate value `r ≠ 0`: seconds credited at `r` + seconds still claimable at `r` ≤ seconds the rate has
+been `r`. On the history of the counterexample the repaired model credits nothing for the window (example below). -/
+theorem savings_only_for_time_at_positive_rate_repaired (r : Dec) (hr : r ≠ 0) (s : St) (t0 : Int) (h : Hist)
+    (hw : s.wl = true) (h0 : 0 ≤ s.coll.lsr) (hnl : s.locker = none) (hg : goodHistFix s t0 h = true) :
+    (grunFix r s ⟨t0, 0, 0⟩ h).2.acc + pending r (grunFix r s ⟨t0, 0, 0⟩ h).1 (grunFix r s ⟨t0, 0, 0⟩ h).2.last
+      ≤ (grunFix r s ⟨t0, 0, 0⟩ h).2.pos :=
+  (inv_runFix r hr h s ⟨t0, 0, 0⟩ (inv_none r s t0 0 0 hw h0 hnl (le_refl _)) hg).2.2.1
+
 /-- **Counterexample — the restriction "no deposit / withdraw while the rate is zero" is necessary; the code credits a zero-rate
 window** (reproduced on the unchanged tree: first `la` sequence of every harness run; values of `math.Pow` as the real run obtained
 them). Locker of 1 000 000 at 10 %; after one day the rate is set to 0 (260 settled, locker flagged `BlockHeight = 0`); a day later
@@ -734,6 +745,21 @@ example : goodHist ⟨true, ⟨0, 0, 1700000000⟩, 1000, none, none⟩ 17000000
      (⟨1704320010, 107⟩, .lsrUpdate 80000000000000000, some (U : Int)), (⟨1704320010, 108⟩, .wlOn, none),
      (⟨1704924810, 109⟩, .lsrUpdate 0, some (U : Int)), (⟨1705924810, 110⟩, .lsrUpdate 0, some (U : Int)),
      (⟨1706924810, 111⟩, .close, none), (⟨1706924810, 112⟩, .create 5, none)] = true := by decide +kernel
+
+/-- the touched history of the counterexample under the REPAIRED step: admissible for the full-strength theorem, the deposit
+keeps the flag, and the reward-calc in the block of the switch-on (power value 1.0: zero seconds) credits nothing -/
+example :
+    let s0 : St := ⟨true, ⟨100000000000000000, 100, 1700000000⟩, 2 ^ 200, none, none⟩
+    let h : Hist := [(⟨1700000000, 101⟩, .create 1000000, none),
+                     (⟨1700086400, 102⟩, .lsrUpdate 0, ofBits 4607183594145394561),
+                     (⟨1700172800, 103⟩, .deposit 1, ofBits 4607182418800017408),
+                     (⟨1731622400, 104⟩, .lsrUpdate 100000000000000000, ofBits 4607182418800017408),
+                     (⟨1731622400, 105⟩, .rewardCalc, ofBits 4607182418800017408)]
+    goodHistFix s0 1700000000 h = true ∧
+    grunFix 100000000000000000 s0 ⟨1700000000, 0, 0⟩ h
+      = (⟨true, ⟨100000000000000000, 104, 1731622400⟩, 2 ^ 200 - 260, some ⟨1000261, 260, 105, 1731622400⟩,
+          some 979099920399789880⟩, ⟨1731622400, 86400, 86400⟩) := by
+  decide +kernel
 
 end lockerExamples
 
